@@ -1,6 +1,7 @@
 package main
 
 import (
+	"go/types"
 	"os"
 	"fmt"
 	"go/token"
@@ -449,6 +450,7 @@ func c02IDDomains(w *World, r *Report, m *hpModel, rule string, dropOnly bool) {
 		"isDroppedCollection": {0}, "isDroppedPartition": {0}, "isDroppingPartition": {0},
 		"RemoveCollection": {0}, "getCollectionTargetInfo": {0},
 		"getPartitionID": {0, 1}, "getPartitionIDs": {0, 1}, "RemovePartitionInfo": {0, 2},
+		"updateTargetPartitionInfo": {0}, "AddPartitionInfo": {},
 	}
 	// stores that move a message id field into the downstream domain
 	type rewrite struct {
@@ -474,7 +476,7 @@ func c02IDDomains(w *World, r *Report, m *hpModel, rule string, dropOnly bool) {
 		}
 	}
 	n := map[string]int{}
-	for _, g := range fam.Funcs {
+	for _, g := range append(append([]*ssa.Function{}, fam.Funcs...), extraIDFuncs(w)...) {
 		eachInstr(g, func(in ssa.Instruction) {
 			c, ok := in.(*ssa.Call)
 			if !ok {
@@ -527,6 +529,20 @@ func c02IDDomains(w *World, r *Report, m *hpModel, rule string, dropOnly bool) {
 						if reaches {
 							bad = fmt.Sprintf("reads %s after it was overwritten with the downstream id at %s", lp, w.pos(rw.st.Pos()))
 						}
+					}
+				}
+				// the argument is read from the downstream collection info (TargetCollectionInfo.CollectionID / .PartitionInfo)
+				for _, x := range backSlice(args[i], SliceOpts{MaxDepth: 4, NoAggregates: true}) {
+					var owner types.Type
+					fname := ""
+					switch y := x.(type) {
+					case *ssa.FieldAddr:
+						owner, fname = y.X.Type(), fieldName(y.X.Type(), y.Field)
+					case *ssa.Field:
+						owner, fname = y.X.Type(), fieldName(y.X.Type(), y.Field)
+					}
+					if owner != nil && typeIs(owner, pkgModel, "TargetCollectionInfo") && (fname == "CollectionID" || fname == "PartitionInfo") {
+						bad = "reads TargetCollectionInfo." + fname + " (the downstream id)"
 					}
 				}
 				r.Check(bad == "", rule, cons, c.Pos(), "source id", "a source-keyed lookup/set is given a downstream id: "+bad)
@@ -611,4 +627,15 @@ func closureCreatedAfter(g *ssa.Function, st *ssa.Store) bool {
 		}
 	})
 	return found
+}
+
+// extraIDFuncs: the handler's id lookups outside handlePack whose arguments are source ids as well.
+func extraIDFuncs(w *World) []*ssa.Function {
+	var out []*ssa.Function
+	for _, n := range []string{"getPartitionID", "getPartitionIDs", "getCollectionTargetInfo", "AddPartitionInfo"} {
+		if f := w.Func(pkgReader, "replicateChannelHandler", n); f != nil {
+			out = append(out, familyOf(f).Funcs...)
+		}
+	}
+	return out
 }
